@@ -46,9 +46,20 @@ def r1_headers(ctx):
     f = repo.func(CV, 'parse_excel')
     defs = local_defs(f.node)
     m = repo.module(CV)
-    tables = {'link_headers': 'Link', 'node_headers': 'Node', 'eqpt_headers': 'Eqpt', 'roadm_headers': 'Roadm'}
-    for tname, cname in tables.items():
-        d = [v for _, v in defs.get(tname, []) if isinstance(v, ast.Dict)]
+    # the header table of a class = the dict literal handed to parse_sheet in the comprehension that builds the class
+    tables = {}
+    for cname in ('Link', 'Node', 'Eqpt', 'Roadm'):
+        for c in calls_to(f, {cname}):
+            comp = enclosing(c, ast.ListComp)
+            it = comp.generators[0].iter if comp is not None else None
+            if isinstance(it, ast.Call) and getattr(it.func, 'id', '') == 'parse_sheet' and len(it.args) >= 3 and isinstance(it.args[2], ast.Name):
+                tables[it.args[2].id] = cname
+    if sorted(tables.values()) != ['Eqpt', 'Link', 'Node', 'Roadm']:
+        raise AnchorMissing(f'parse_excel: header tables of Link, Node, Eqpt, Roadm (found {sorted(tables.values())})')
+    label = {'Link': 'link_headers', 'Node': 'node_headers', 'Eqpt': 'eqpt_headers', 'Roadm': 'roadm_headers'}
+    for local_name, cname in sorted(tables.items(), key=lambda kv: kv[1]):
+        tname = label[cname]
+        d = [v for _, v in defs.get(local_name, []) if isinstance(v, ast.Dict)]
         if len(d) != 1:
             raise AnchorMissing(f'parse_excel: header table {tname}')
         tab = lit(d[0])
@@ -73,7 +84,7 @@ def r1_headers(ctx):
                       f'the west sub-table of {tname} is not the east one with the prefix swapped', f'{e} / {w}')
         # the class is built from this table's rows
         ctor = [c for c in calls_to(f, {cname}) if enclosing(c, ast.ListComp) is not None]
-        ok = bool(ctor) and tname in ast.unparse(enclosing(ctor[0], ast.ListComp))
+        ok = bool(ctor) and local_name in names_in(enclosing(ctor[0], ast.ListComp))
         ctx.check('R1.headers', f'{site(f)} {cname} rows from {tname}', ok, key(f, f'{tname}|rows'),
                   f'{cname} objects are not built from the rows parsed with {tname}')
     ctx.need('R1.headers', 40)
@@ -135,6 +146,16 @@ def r2_mirrors(ctx):
                         break
                 return out
             aa, ab = arms(fa, 'east'), arms(fb, 'west')
+
+            def result_var(f):
+                r = [n for n in walk_no_nested(f.node) if isinstance(n, ast.Return)]
+                return r[-1].value.id if r and isinstance(r[-1].value, ast.Name) else None
+            ra, rb = result_var(fa), result_var(fb)
+
+            def norm(arms_, rv):
+                # stores into the returned dict, keyed by its literal key (the name of the local does not matter)
+                return {k: {x.replace(f'{rv}[', 'eqpt[', 1) if x.startswith(f'{rv}[') else x: y for x, y in v.items()} for k, v in arms_.items()}
+            aa, ab = norm(aa, ra), norm(ab, rb)
             ma = {k.replace('east', 'west'): {x: y.replace('east', 'west') for x, y in v.items() if x != "eqpt['type']" or 'Fused' in y}
                   for k, v in aa.items()}
             mb = {k: {x: y for x, y in v.items() if x != "eqpt['type']" or 'Fused' in y} for k, v in ab.items()}
@@ -203,7 +224,10 @@ def r3_defaulting(ctx):
                 else:
                     ok = d_e == dv and d_w == dv and east_var != dv
                 rk = [s for s in body if isinstance(s, ast.Assign) and "'west'" in ast.unparse(s.value)]
-                ok = ok and len(rk) == 1 and ast.unparse(rk[0].value) == "'west' + k.rsplit('east', maxsplit=1)[-1]"
+                kv = lp[0].target.elts[0].id
+                ok = ok and len(rk) == 1 and ast.unparse(rk[0].value) == f"'west' + {kv}.rsplit('east', maxsplit=1)[-1]" and \
+                    ast.unparse(rk[0].targets[0]) == kv and ast.unparse(g_e.value.args[0]) == kv and ast.unparse(g_w.value.args[0]) == kv and \
+                    rk[0].lineno > g_e.lineno and rk[0].lineno < g_w.lineno
             ctx.check('R3.defaulting', f'{site(ua)} west default', ok, key(ua, 'west-default'),
                       f'{cname}: ' + ('a missing west value does not default to the EAST VALUE of the same row' if cname == 'Link' else
                                       'a missing west value does not default to the table default (independently of east)'), det)
@@ -254,8 +278,13 @@ def r4_units(ctx):
     txt = ast.unparse(pr.node) if pr else ''
     pairs = {"'source': self.source", "'destination': self.destination", "'spacing': self.spacing", "'max-nb-of-channel': self.nb_channel",
              "'output-power': self.power", "'trx_type': self.trx_type", "'trx_mode': self.mode", "'bidirectional': self.bidir",
-             "'request-id': self.request_id", "'hop-type': f'{self.loose}'", "'node-id': f'{node}'"}
+             "'request-id': self.request_id", "'hop-type': f'{self.loose}'"}
     miss = sorted(p for p in pairs if p not in txt)
+    from ..pattern import find as _find
+    hops = [b for n, b in _find("[E_d for V_n in self.nodes_list]", pr.node)] if pr else []
+    if not (len(hops) == 1 and f"'node-id': f'{{{hops[0]['V_n']}}}'" in ast.unparse(hops[0]['E_d']) and
+            f"'index': self.nodes_list.index({hops[0]['V_n']})" in ast.unparse(hops[0]['E_d'])):
+        miss.append('one include hop per entry of nodes_list (node-id, index)')
     ctx.check('R4.units', f'{site(pr) if pr else site(init)} request fields', not miss and "['path_bandwidth'] = self.path_bandwidth" in txt,
               key(init, 'request-fields'), f'the request document does not carry {miss}')
     ctx.need('R4.units', 14)
@@ -291,9 +320,18 @@ def r5_errors(ctx):
         ctx.check('R5.errors', f'{site(f)} raises', any('NetworkTopologyError' in ast.unparse(r) for r in raises), key(f, 'raises'),
                   f'{fname} no longer raises NetworkTopologyError')
     pe = repo.func(CV, 'parse_excel')
-    dup = [n for n in walk_no_nested(pe.node) if isinstance(n, ast.If) and 'all_cities' in ast.unparse(n.test) and 'len(' in ast.unparse(n.test)]
-    ok = len(dup) == 1 and ast.unparse(dup[0].test) == 'len(all_cities) != len(nodes)' and \
-        any(isinstance(x, ast.Raise) for s in dup[0].body for x in ast.walk(s))
+    from ..pattern import bound_by, mexpr
+    # the multiset of city names of the Node rows, compared in size with the rows themselves
+    node_rows = [stmt_of(pe, c).targets[0].id for c in calls_to(pe, {'Node'}) if enclosing(c, ast.ListComp) is not None and
+                 isinstance(stmt_of(pe, c), ast.Assign) and isinstance(stmt_of(pe, c).targets[0], ast.Name)]
+    ok = False
+    if len(node_rows) == 1:
+        nr = node_rows[0]
+        cnt = [nm for nm, _, _ in bound_by(pe.node, f'Counter((V_n.city for V_n in {nr} if V_n.city))')] + \
+            [nm for nm, _, _ in bound_by(pe.node, f'Counter((V_n.city for V_n in {nr}))')]
+        dup = [n for n in walk_no_nested(pe.node) if isinstance(n, ast.If) and cnt and
+               ast.unparse(n.test) in (f'len({cnt[0]}) != len({nr})', f'len({nr}) != len({cnt[0]})')]
+        ok = len(cnt) == 1 and len(dup) == 1 and any(isinstance(x, ast.Raise) for s_ in dup[0].body for x in ast.walk(s_))
     ctx.check('R5.errors', f'{site(pe)} duplicate cities', ok, key(pe, 'dup-city'), 'duplicate city names are not rejected')
     ctx.need('R5.errors', 6)
 
